@@ -115,7 +115,7 @@ struct G {
 	int64_t faults_fired[CH_NKINDS + 4]; int faults_total;
 	int64_t nchoices[CH_NKINDS];
 	int64_t probe_hit[MAXPROBES];
-	int align_jumps;
+	int align_jumps, hold_ticks;
 	int64_t clock_jumps, idle_jumps, switches, switches_in_nsync, natomics, futex_waits, futex_blocks, futex_wakes, nyields,
 		nmallocs, nfrees, ctor_allocs, nacquires, fibres_total;
 	int64_t spin_yields, progress_mark;
